@@ -284,6 +284,8 @@ pub struct WorkerArgs {
     pub out: String,
     pub max_secs: f64,
     pub max_violations: usize,
+    /// determinism self-test: one line per run (run index, trace hash, choice count, class)
+    pub hash_log: Option<String>,
 }
 
 pub fn worker(a: WorkerArgs) -> i32 {
@@ -295,6 +297,7 @@ pub fn worker(a: WorkerArgs) -> i32 {
     let _ = execute(a.sim, Source::Seeded(choice::run_seed(a.seed, a.sim.name, u64::MAX)), false);
     let warm = trace::snapshot();
     let mut classes_seen: HashSet<String> = HashSet::new();
+    let mut hash_log = a.hash_log.as_ref().map(|p| std::io::BufWriter::new(std::fs::File::create(p).expect("hash log")));
     for i in 0..a.count {
         let run = a.from + i;
         CURRENT_RUN.store(run as i64, Ordering::SeqCst);
@@ -306,6 +309,9 @@ pub fn worker(a: WorkerArgs) -> i32 {
             hashes.insert(r.trace.hash);
         }
         sched_hashes.insert(r.trace.sched_hash);
+        if let Some(w) = hash_log.as_mut() {
+            let _ = writeln!(w, "{} {:016x} {:016x} {} {}", run, r.trace.hash, r.trace.sched_hash, r.choices.len(), r.violation.as_ref().map(|v| v.class.as_str()).unwrap_or("-"));
+        }
         if r.trace.nontrivial && res.samples.len() < 2 && r.violation.is_none() && (i % 97 == 3 || i > 500) {
             let rr = execute(a.sim, Source::Replay(&r.choices), true);
             if rr.trace.hash == r.trace.hash {
